@@ -65,6 +65,13 @@ def parseEvict (s : String) : Option (List Key) :=
     | [n, a, b, p, port] => (parseQueryFields n a b p port).map key
     | _ => none
 
+/-- shape of the request's `ResolveInfo`: 0 = nil, 1 = {IPv4, IPv6}, 2 = the same with `Err` set -/
+def parseShape (s : String) : Option (IP → IP → Option RInfo) :=
+  if s = "0" then some (fun _ _ => none)
+  else if s = "1" then some (fun a b => some ⟨a, b, false⟩)
+  else if s = "2" then some (fun a b => some ⟨a, b, true⟩)
+  else none
+
 def showRewrite : Option Rewrite → String
   | none => "0"
   | some r => s!"1:{hexOfStr r.host}:{showOptIP r.r4}:{showOptIP r.r6}"
@@ -83,22 +90,24 @@ def step (st : St) (line : String) : St × String :=
         | .compileErr n w => ({}, s!"err compile {n} {w}")
         | .unsupported n => ({}, s!"unsupported {n}")
     | _, _ => ({}, "bad-op")
-  | ["q", n, a, b, p, port, u, ev] =>
-    match st.rules, parseQueryFields n a b p port, parseRunes u, parseEvict ev with
-    | none, _, _, _ => (st, "no-rules")
-    | some (rs, dflt), some q, some u, some ev =>
+  | ["q", n, a, b, p, port, u, ev, shape] =>
+    match st.rules, parseQueryFields n a b p port, parseRunes u, parseEvict ev, parseShape shape with
+    | none, _, _, _, _ => (st, "no-rules")
+    | some (rs, dflt), some q, some u, some ev, some mk =>
       if !isAscii q.name then (st, "nonascii")
       else
-        let hit := (lookup st.store (key q)).isSome
-        let (store', d) := cachedMatch (fun _ => u) rs st.store q (fun k => ev.contains k)
+        -- the request: name + ResolveInfo in the given shape; the engine builds the lookup from it
+        let ri := mk q.v4 q.v6
+        let hit := (lookup st.store (key (reqQuery q.name ri q.proto q.port))).isSome
+        let (store', d, (eng, rw)) :=
+          engineHandle (fun _ => u) rs dflt st.store q.name ri q.proto q.port (fun k => ev.contains k)
         let (ob, hij) : String × String :=
           match d with
           | none => ("-", "-")
           | some (ob, h) => (asciiOfStr ob, showOptIP h)
-        let (eng, rw) := handle dflt d
         ({ st with store := store' },
           s!"ob={ob} hij={hij} hit={showBool hit} len={store'.length} eng={asciiOfStr eng} rw={showRewrite rw}")
-    | _, _, _, _ => (st, "bad-op")
+    | _, _, _, _, _ => (st, "bad-op")
   | _ => (st, "bad-op")
 
 end Hy.Drv.Acl
